@@ -22,14 +22,19 @@ var c15names = []string{"a", "b", "c", "d", "e"}
 
 // c15cfg is the per-package file-layout configuration.
 type c15cfg struct {
-	Loc    int // 0: p/   1: vendor/p/   2: import path example.com/x/p found at x/p/   3: example.com/x/p found at p/  4: both vendor/p (real) and p/ (poison; vendor must win)
+	Loc    int // 0: p/   1: vendor/p/   2: import path example.com/x/p found at x/p/   3: example.com/x/p found at p/  4: both vendor/p (real) and p/ (poison; vendor must win)  5: example.com/org/repo/p found at p/  6: a.io/b/c/lib/p found at lib/p/
 	Files  int // 1..3 files, markers spread over them
 	Poison int // bitmask: 1 p_test.go, 2 //go:build !goat, 4 //go:build ignore ; 8 adds a //go:build goat file that MUST be included
 }
 
 func c15importPath(p string, cfg c15cfg) string {
-	if cfg.Loc == 2 || cfg.Loc == 3 {
+	switch cfg.Loc {
+	case 2, 3:
 		return "example.com/x/" + p
+	case 5:
+		return "example.com/org/repo/" + p // four components, found at p/
+	case 6:
+		return "a.io/b/c/lib/" + p // five components, found at lib/p/
 	}
 	return p
 }
@@ -40,6 +45,8 @@ func c15dir(p string, cfg c15cfg) string {
 		return "vendor/" + p
 	case 2:
 		return "x/" + p
+	case 6:
+		return "lib/" + p
 	}
 	return p
 }
@@ -51,9 +58,6 @@ func c15files(n int, adj []int, cfgs []c15cfg, root int) (map[string]string, str
 		p := c15names[i]
 		cfg := cfgs[i]
 		dir := c15dir(p, cfg)
-		if i == root && (cfg.Loc == 2 || cfg.Loc == 3) {
-			// the root is addressed by directory, keep it loadable by its import path
-		}
 		var imps []string
 		var deps []string
 		for j := 0; j < n; j++ {
@@ -345,7 +349,7 @@ func c15run(r *report.Run) {
 	}
 	// (2) configurations
 	var cfgAlphabet []c15cfg
-	for loc := 0; loc <= 4; loc++ {
+	for loc := 0; loc <= 6; loc++ {
 		for files := 1; files <= 3; files++ {
 			for _, poison := range []int{0, 1, 2, 4, 8, 15} {
 				cfgAlphabet = append(cfgAlphabet, c15cfg{loc, files, poison})
